@@ -452,7 +452,7 @@ pub fn one_history(cfg: &Cfg, r: &mut Report, rt: &tokio::runtime::Runtime, rng:
         return;
     }
     // sessions / tasks: live == log == snapshot, verify_snapshot passes
-    let bytes = store.log_bytes();
+    let bytes = store.log_bytes_settled();
     let frames = match truth::parse_log(&bytes) {
         Ok(f) => f,
         Err(e) => {
@@ -635,7 +635,7 @@ fn judge_continuities(
     path: &'static str,
     rebuilt_live: &std::collections::HashSet<String>,
 ) -> bool {
-    let bytes = store.log_bytes();
+    let bytes = store.log_bytes_settled();
     let frames = match truth::parse_log(&bytes) {
         Ok(f) => f,
         Err(e) => {
@@ -813,7 +813,7 @@ fn directed_rebuild_race(r: &mut Report) {
     r.eval();
     r.distinct_str("directed_rebuild_race");
     r.count("b_directed_rebuild_race_runs", 1);
-    let frames = truth::parse_log(&store.log_bytes()).unwrap_or_default();
+    let frames = truth::parse_log(&store.log_bytes_settled()).unwrap_or_default();
     let in_log: Vec<Value> = truth::stream(&frames, "continuity", &c).iter().map(|f| f.v.clone()).collect();
     let side = std::fs::read(store.streams_dir().join(format!("{c}.jsonl"))).unwrap_or_default();
     let (same, detail) = match truth::parse_log(&side) {
@@ -900,7 +900,7 @@ fn directed_deep_provider_payload(r: &mut Report, rt: &tokio::runtime::Runtime) 
         }
         r.eval();
         r.distinct_str(&format!("deep_provider_payload|{depth}"));
-        let bytes = store.log_bytes();
+        let bytes = store.log_bytes_settled();
         let reached = String::from_utf8_lossy(&bytes).contains("tkdeepq2z");
         r.count("b_deep_provider_payload_runs", 1);
         if !reached {
